@@ -572,6 +572,29 @@ def oracle_operator_semantics(rng):
         if st != 'solved' or abs(val) > 1e-5:
             return 'min r s.t. relent(X.T, Y) <= r with X.T = Y fixed reports (%s, %r); the optimum is 0' % (st, val)
         X.value, Y.value = vX, vY          # the solve above loaded other values
+        # affine operators on either side of @, with matrices that are not symmetric: the compiled residual of `x @ M <= c` at a point is c - x0 @ M
+        xm = cl.Variable(shape=(3,), name='os_xm')
+        Mn = np.array([[1.0, 2.0, 0.0], [0.0, 1.0, -1.0], [3.0, 0.0, 1.0]])
+        x0 = np.array([0.95, -0.15, -0.1])
+        xm.value = x0
+        for nm, fe_, want in (('x @ M', lambda: xm @ Mn, x0 @ Mn), ('M @ x', lambda: Mn @ xm, Mn @ x0), ('x @ M.T', lambda: xm @ Mn.T, x0 @ Mn.T),
+                              ('(x + 1) @ M', lambda: (xm + 1.0) @ Mn, (x0 + 1.0) @ Mn), ('x[:2] @ M[:2]', lambda: xm[:2] @ Mn[:2], x0[:2] @ Mn[:2])):
+            try:
+                e_ = fe_()
+            except Exception as e:
+                return '%s with a non-symmetric / non-square M raised %r; numpy gives %s' % (nm, e, np.asarray(want).tolist())
+            gvv = np.asarray(e_.value, dtype=float)
+            if gvv.shape != np.shape(want) or not np.allclose(gvv, want):
+                return '%s with a non-symmetric M evaluates to %s at x = %s; numpy gives %s' % (nm, gvv.tolist(), x0.tolist(), np.asarray(want).tolist())
+        cvec = np.array([1.0, 2.0, 1.5])
+        for nm, con_ in (('x @ M <= c', xm @ Mn <= cvec), ('c - x @ M in R^3_+', cl.PrimalProductCone(cvec - xm @ Mn, [cl.Cone('+', 3)]))):
+            A_, b_, K_, vm_, _, _ = cl.compile_constrained_system([con_])
+            cols = np.asarray(vm_[xm.name]).ravel()
+            z = np.zeros(A_.shape[1])
+            z[cols] = x0
+            res = np.sort(np.asarray(A_ @ z + b_).ravel())
+            if A_.shape != (3, 3) or not np.allclose(res, np.sort(cvec - x0 @ Mn)):
+                return ('%s with a non-symmetric M: the compiled rows at x = %s are %s; the slack c - x @ M is %s' % (nm, x0.tolist(), res.tolist(), np.sort(cvec - x0 @ Mn).tolist()))
         w = np.array([1.0, 2.0, 0.5])
         gv = float(np.asarray(cl.weighted_sum_exp(w, X.T[:, 1]).value, dtype=float).ravel()[0])
         if abs(gv - float(np.sum(w * np.exp(vX.T[:, 1])))) > 1e-9 * (1 + abs(gv)):
